@@ -285,8 +285,10 @@ def anchor_ranges(prop):
 # main entry
 
 def write_evidence(pid, doc):
-    os.makedirs(os.path.join(env.VERIF, "evidence"), exist_ok=True)
-    path = os.path.join(env.VERIF, "evidence", pid + ".json")
+    # runs against another tree (HV_REPO=<scratch copy>, used by the drills) must not overwrite the evidence about /repo
+    sub = "evidence" if os.path.realpath(env.REPO) == os.path.realpath("/repo") else os.path.join("evidence", "_other_tree")
+    os.makedirs(os.path.join(env.VERIF, sub), exist_ok=True)
+    path = os.path.join(env.VERIF, sub, pid + ".json")
     try:
         import jsonschema
         schema_path = "/root/.vp/EVIDENCE.schema.json"
@@ -300,7 +302,7 @@ def write_evidence(pid, doc):
         json.dump(doc, f, indent=1, default=str)
         f.write("\n")
     os.replace(tmp, path)
-    if doc.get("tier") == "thorough":
+    if doc.get("tier") == "thorough" and sub == "evidence":
         # keep the deepest run next to the per-change one (evidence/<id>.json is rewritten by every run)
         tdir = os.path.join(env.VERIF, "evidence", "thorough")
         os.makedirs(tdir, exist_ok=True)
